@@ -40,15 +40,15 @@ Definition on_last (f : item -> item) (l : list item) : list item :=
 Definition tamper (f : obs -> obs) (t : trace) : trace :=
   map_items (on_last (fun it => I (it_call it) (it_out it) (f (it_obs it)))) t.
 Definition set_accts (l : list acct) (o : obs) : obs :=
-  mkObs (ob_paused o) (ob_supply o) l (ob_allow o) (ob_idv o) (ob_cmp o).
+  mkObs (ob_paused o) (ob_supply o) l (ob_allow o) (ob_idv o) (ob_cmp o) (ob_cmp_set o) (ob_idv_set o).
 Definition set_cmp (l : list cev) (o : obs) : obs :=
-  mkObs (ob_paused o) (ob_supply o) (ob_accts o) (ob_allow o) (ob_idv o) l.
+  mkObs (ob_paused o) (ob_supply o) (ob_accts o) (ob_allow o) (ob_idv o) l (ob_cmp_set o) (ob_idv_set o).
 Definition set_out (r : res ret) (t : trace) : trace :=
   map_items (on_last (fun it => I (it_call it) r (it_obs it))) t.
 Definition set_call (c : call) (t : trace) : trace :=
   map_items (on_last (fun it => I c (it_out it) (it_obs it))) t.
 Definition set_allow (l : list Z) (o : obs) : obs :=
-  mkObs (ob_paused o) (ob_supply o) (ob_accts o) l (ob_idv o) (ob_cmp o).
+  mkObs (ob_paused o) (ob_supply o) (ob_accts o) l (ob_idv o) (ob_cmp o) (ob_cmp_set o) (ob_idv_set o).
 
 (* ---- compliance layer ---- *)
 Definition cex_cfg : ccfg := Build_ccfg 20.
@@ -87,3 +87,9 @@ Definition iset_out (r : res iret) (t : trace) : trace :=
   | IdentityTrace t => mkITrace (map (fun it => II (ii_call it) r (ii_log it)) (it_items t))
   | x => x
   end.
+Definition set_links (a b : bool) (o : obs) : obs :=
+  mkObs (ob_paused o) (ob_supply o) (ob_accts o) (ob_allow o) (ob_idv o) (ob_cmp o) a b.
+Definition set_paused_obs (b : bool) (o : obs) : obs :=
+  mkObs b (ob_supply o) (ob_accts o) (ob_allow o) (ob_idv o) (ob_cmp o) (ob_cmp_set o) (ob_idv_set o).
+Definition cset_obs (o : cobs) (t : trace) : trace :=
+  cmap_items (con_last (fun it => CI (ci_call it) (ci_out it) o)) t.
